@@ -852,6 +852,10 @@ class Evaluator:
             # point addition (ecdsa Point.__add__)
             if T.type_of(a) == 'point' or T.type_of(b) == 'point':
                 return T.pt_add(a, b)
+            if T.tag(a) == 'list' and T.tag(b) != 'list':
+                items = _fixed_items(b)
+                if items is not None:
+                    return T.lst(list(a[1]) + items)
             return T.add(a, b)
         if isinstance(o, ast.Sub):
             return T.sub(a, b)
